@@ -151,7 +151,7 @@ class Sim:
                     # let the part that fits through; the error comes on the next call
                     directive = ("short", fit)
                     continue
-            self.fired.append(f"{op}:{f['errno']}")
+            self.fired.append(f"{op}:{f['errno']}|{label}")
             num = getattr(_errno, f["errno"])
             raise OSError(num, os.strerror(num), label)
 
@@ -169,7 +169,7 @@ class Sim:
 
     def apply_mutation(self, do):
         """A concurrent user/process changes the tree. Uses the real calls."""
-        self.fired.append("mutation:" + do["op"])
+        self.fired.append("mutation:" + do["op"] + "|" + do["path"])
         root = self.roots[0][0]
         p = os.path.join(root, do["path"])
         op = do["op"]
